@@ -600,7 +600,7 @@ func checkStatementPairs(c *core.Ctx) {
 			absolute[n+" := 2"], absolute[n], absolute[n+" + 1"], absolute[n+".p"], absolute[n+"(1)"] = "("+n+" := 2)", n, "("+n+" + 1)", n+".p()", n+".call(1)"
 		}
 	}
-	seps := []string{"\n", "\n\n", "\n# c\n", "\r\n", " \n ", "\n\t", "; "}
+	seps := []string{"\n", "\n\n", "\n# c\n", "\r\n", " \n ", "\n\t", "; ", "\r", "\r\r", " \r "}
 	alone := func(src string) (string, string) {
 		n, o := panrun.Parse(src + "\n")
 		if o != nil {
@@ -756,6 +756,62 @@ func checkNegativeLiterals(c *core.Ctx, lv *levels) {
 	}
 }
 
+// ---------------------------------------------------------------- a jargon file in front of the program (-j)
+
+// With -j the text of $PANGAEA_JARGON_FILE is put in front of the program. Whether that file ends with a line
+// break or not, its last statement and the program's first statement stay two statements (no regrouping across
+// the seam): the output must be what the same run gives with a line break added to the jargon file.
+func checkJargon(c *core.Ctx) {
+	cli := os.Getenv("PANMC_CLI")
+	if cli == "" {
+		c.HarnessError("PANMC_CLI is not set")
+		return
+	}
+	jargons := []string{"base := 100\nlimit := base * 2", "base := 100\nlimit := base * 2 # the limit", "base := 100\nlimit := base * 2\n# a closing comment", "base := 100\nlimit := base *\n  2"}
+	firsts := []string{"-1 + 2 * 3 => delta", "(limit + 1).p", "+5 => delta", "[limit].p", "!base => delta", "*[1] => delta"}
+	type jc struct{ jargon, first string }
+	var cases []jc
+	for _, j := range jargons {
+		for _, f := range firsts {
+			cases = append(cases, jc{j, f})
+		}
+	}
+	tk.Sharded(c, len(cases), func(i int) {
+		t := cases[i]
+		c.Eval(1)
+		c.Nontrivial(1)
+		c.Validated(1)
+		dir, err := os.MkdirTemp(os.Getenv("PANMC_SCRATCH"), "c02jargon")
+		if err != nil {
+			c.HarnessError("%v", err)
+			return
+		}
+		defer os.RemoveAll(dir)
+		script := t.first + "\n[base, limit].p\n"
+		os.WriteFile(filepath.Join(dir, "main.pangaea"), []byte(script), 0o644)
+		run := func(jargon string, args ...string) string {
+			os.WriteFile(filepath.Join(dir, "jargon.pangaea"), []byte(jargon), 0o644)
+			cmd := exec.Command("timeout", append([]string{"30", cli, "-j"}, args...)...)
+			cmd.Dir = dir
+			cmd.Env = append(os.Environ(), "PANGAEA_JARGON_FILE="+filepath.Join(dir, "jargon.pangaea"))
+			var so, se strings.Builder
+			cmd.Stdout, cmd.Stderr = &so, &se
+			cmd.Run()
+			return so.String() + "|" + strings.SplitN(se.String(), "\n", 2)[0]
+		}
+		for _, how := range [][]string{{"main.pangaea"}, {"-e", script}} {
+			want := run(t.jargon+"\n", how...)
+			got := run(t.jargon, how...)
+			c.Outcome("jargon:" + map[bool]string{true: "ok", false: "differs"}[got == want])
+			if got != want {
+				c.Violation(core.Violation{Key: "F12/jargon-seam-regrouped", Case: core.JSON(tcase{Family: "F12:" + t.jargon + " ++ " + t.first}), Desc: fmt.Sprintf("-j with a jargon file ending %q, program starting %q (%s)", t.jargon[len(t.jargon)-12:], t.first, how[0]),
+					Expected: fmt.Sprintf("%q (the output with a final line break in the jargon file)", want), Observed: fmt.Sprintf("%q", got)})
+				return
+			}
+		}
+	})
+}
+
 // ---------------------------------------------------------------- running
 
 type prepared struct {
@@ -902,6 +958,7 @@ func run(c *core.Ctx) {
 	checkStatementPairs(c)
 	checkNegativeLiterals(c, lv)
 	checkOneLiners(c, lv)
+	checkJargon(c)
 }
 
 func replay(c *core.Ctx, raw json.RawMessage) {
@@ -914,6 +971,10 @@ func replay(c *core.Ctx, raw json.RawMessage) {
 		if lv, err := readLevels(); err == nil {
 			checkOneLiners(c, lv)
 		}
+		return
+	}
+	if strings.HasPrefix(tc.Family, "F12:") {
+		checkJargon(c)
 		return
 	}
 	if strings.HasPrefix(tc.Family, "F11:") {
